@@ -524,7 +524,7 @@ async def process_changing_cause(
         # TODO: purge only the handlers that fell out of current purpose; but it is not critical
         if state.extras:
             state.purge(body=cause.body, patch=cause.patch,
-                        storage=storage, handlers=owned_handlers)
+                        storage=storage, handlers=owned_handlers, keep=cause_handlers)
 
         # Inform on the current cause/event on every processing cycle. Even if there are
         # no handlers -- to show what has happened and why the diff-base is patched.
